@@ -53,11 +53,13 @@ def flag_args(flag, names, rnd):
     names = list(names)
     if rnd.randrange(3) == 0:
         names.insert(rnd.randrange(len(names) + 1), rnd.choice(names))
-    style = rnd.randrange(4)
+    style = rnd.randrange(9)
     if style == 0:
         return [a for n in names for a in (flag, n)]
-    sep = [",", " ", ";"][style - 1]
-    return [flag, sep.join(names)]
+    # every separator the flag accepts (comma, semicolon, any white space: one name per line is a way to write such a list too), doubled
+    # and trailing separators included
+    sep = [",", " ", ";", "\n", "\t", ", ", "\r\n", ";\n"][style - 1]
+    return [flag, sep.join(names) + (sep if rnd.randrange(4) == 0 else "")]
 
 
 def check(ctx, replay=None):
@@ -183,6 +185,6 @@ def check(ctx, replay=None):
     ctx.sample({"case": picked[0], "closure_profiles": len(closure_items)})
     ctx.cov["rule"] = ("cases of Profile.tla: every sequence of at most 3 discoveries over {read, write, close, exit_group} (the same syscall at several sites included) x every pair of disjoint "
                        "-b / -allow subsets of a 6-name universe (incl. a name of another architecture and an unknown name); %d of %d cases (seeded, stratified by class) run on the real "
-                       "profiler binary through an injected cache file, flags in four syntaxes, both output formats; every YAML profile then loaded through ucfg, compiled and executed "
+                       "profiler binary through an injected cache file, flags in nine syntaxes (repeated flag; comma, blank, semicolon, newline, tab, CRLF and mixed separators), both output formats; every YAML profile then loaded through ucfg, compiled and executed "
                        "on every x86_64 table number; non-trivial = discoveries and at least one flag" % (len(picked), len(cases)))
     ctx.assumptions += ["the found set reaches the profiler through the real extraction of a synthetic listing (site model); flag sets are disjoint as the statement demands"]
